@@ -803,4 +803,8 @@ func checkC06(p *core.Program, r *core.Report) {
 		r.Check(okFwd, "R3", core.FuncName(cs.Caller)+"/forwards-group-changes", p.Pos(cs.Pos()), "added->arg0, removed->arg1, logged", "membership changes are not reported in a contact_groups_changed event")
 	}
 	r.Require("reevaluate_call_sites", n, 2)
+
+	// ------------------------------------------------------------------ R4 the membership predicate
+	r.Rule("R4", "membership is decided by the contact-query evaluator, so its comparison tables and its any/all reduction over multi-valued properties (URNs) are obligations here too (imported from C15/R1 R2)")
+	importObligations(p, r, "C15", map[string]bool{"R1": true, "R2": true}, "R4", "the query evaluator that decides group membership is wrong here, so a contact is kept in (or out of) a group its attributes do not match")
 }
